@@ -1,6 +1,7 @@
 import Toq.Model.ExtGames
 import Toq.Proofs.Cert
 import Toq.Proofs.Idx
+import Toq.Proofs.Npa
 import Mathlib.LinearAlgebra.Matrix.Kronecker
 import Mathlib.Logic.Equiv.Fin.Basic
 /-!
@@ -419,5 +420,129 @@ theorem checkUnentConstUpper_sound (G : Game d) (c : Rat) (Ls : Nat → EMat d d
   exact checkLamMaxUpper_sound _ _ _ (h a ha b hb)
 
 end Games
+
+/-! ## Feasibility embedding of unentangled strategies into `npa_constraints(…, referee_dim = d)`
+
+`npa_constraints` with `referee_dim = d > 1` runs the same loop over pairs of words as in the scalar case and emits, per
+pair, one equation between `d × d` blocks (`r_var[i::dim, j::dim]` is block `(i, j)` of the moment matrix).  The mirror
+`Toq.Npa.npaConstraints` of that loop is therefore reused with values in `d × d` blocks: `Blk d ρ` is the type of blocks in
+which the scalar `1` of the generator is read as the referee state `ρ` (`R[0,0]`-block `= ρ`, `Σ_{a,b} K(a,b|x,y) = ρ`; the
+code asks for the traces of these equations only) and `≤` is the Loewner order (`K(a,b|x,y) ⪰ 0`).  A scalar point
+`(R, K)` over ℚ becomes the block point `(R·ρ, K·ρ)`; `sat_blk_of_sat` transfers every satisfied constraint. -/
+
+section ExtEmbed
+open Toq.Npa
+variable {d : Nat}
+
+/-- `d × d` blocks in which the scalar `1` of the NPA generator is read as the referee state `ρ` -/
+def Blk (d : Nat) (_ρ : Matrix (Fin d) (Fin d) ℂ) : Type := Matrix (Fin d) (Fin d) ℂ
+
+namespace Blk
+variable {ρ : Matrix (Fin d) (Fin d) ℂ}
+
+instance : AddCommMonoid (Blk d ρ) := inferInstanceAs (AddCommMonoid (Matrix (Fin d) (Fin d) ℂ))
+instance : One (Blk d ρ) := ⟨ρ⟩
+/-- the underlying matrix -/
+def mat (A : Blk d ρ) : Matrix (Fin d) (Fin d) ℂ := A
+instance : LE (Blk d ρ) := ⟨fun A B => (B.mat - A.mat).PosSemidef⟩
+/-- a matrix as a block -/
+def of (ρ : Matrix (Fin d) (Fin d) ℂ) (A : Matrix (Fin d) (Fin d) ℂ) : Blk d ρ := A
+
+theorem one_mat : (1 : Blk d ρ).mat = ρ := rfl
+theorem zero_mat : (0 : Blk d ρ).mat = 0 := rfl
+theorem add_mat (A B : Blk d ρ) : (A + B).mat = A.mat + B.mat := rfl
+theorem le_iff (A B : Blk d ρ) : A ≤ B ↔ (B.mat - A.mat).PosSemidef := Iff.rfl
+end Blk
+
+/-- the block `q · ρ` of a rational scalar `q` -/
+def blkOf (ρ : Matrix (Fin d) (Fin d) ℂ) (q : ℚ) : Blk d ρ := Blk.of ρ (((q : ℚ) : ℂ) • ρ)
+
+theorem blkOf_zero (ρ : Matrix (Fin d) (Fin d) ℂ) : blkOf ρ 0 = 0 := by
+  show ((((0 : ℚ) : ℂ)) • ρ : Matrix (Fin d) (Fin d) ℂ) = 0
+  simp
+
+theorem blkOf_one (ρ : Matrix (Fin d) (Fin d) ℂ) : blkOf ρ 1 = 1 := by
+  show ((((1 : ℚ) : ℂ)) • ρ : Matrix (Fin d) (Fin d) ℂ) = ρ
+  simp
+
+theorem blkOf_add (ρ : Matrix (Fin d) (Fin d) ℂ) (p q : ℚ) : blkOf ρ (p + q) = blkOf ρ p + blkOf ρ q := by
+  show ((((p + q : ℚ) : ℂ)) • ρ : Matrix (Fin d) (Fin d) ℂ) = ((p : ℚ) : ℂ) • ρ + ((q : ℚ) : ℂ) • ρ
+  rw [Rat.cast_add, add_smul]
+
+theorem blkOf_sumN (ρ : Matrix (Fin d) (Fin d) ℂ) (F : Nat → ℚ) : ∀ n, blkOf ρ (sumN n F) = sumN n (fun k => blkOf ρ (F k))
+  | 0 => blkOf_zero ρ
+  | n + 1 => by
+    show blkOf ρ (sumN n F + F n) = sumN n (fun k => blkOf ρ (F k)) + blkOf ρ (F n)
+    rw [blkOf_add, blkOf_sumN ρ F n]
+
+theorem blkOf_nonneg {ρ : Matrix (Fin d) (Fin d) ℂ} (hρ : ρ.PosSemidef) {q : ℚ} (hq : 0 ≤ q) : (0 : Blk d ρ) ≤ blkOf ρ q := by
+  show ((blkOf ρ q).mat - (0 : Blk d ρ).mat).PosSemidef
+  rw [Blk.zero_mat, sub_zero]
+  show ((((q : ℚ) : ℂ)) • ρ : Matrix (Fin d) (Fin d) ℂ).PosSemidef
+  refine hρ.smul ?_
+  rw [← Complex.ofReal_ratCast]
+  exact Complex.zero_le_real.mpr (by exact_mod_cast hq)
+
+/-- transfer of a satisfied constraint from the scalar point `(R, K)` to the block point `(R·ρ, K·ρ)` -/
+theorem sat_blk_of_sat {ρ : Matrix (Fin d) (Fin d) ℂ} (hρ : ρ.PosSemidef) (psd psd' : Prop) (hp : psd → psd')
+    (ao bo : Nat) (R : Nat → Nat → ℚ) (K : Nat → Nat → Nat → Nat → ℚ) (c : Constr)
+    (h : Sat psd ao bo R K c) :
+    Sat psd' ao bo (fun i j => blkOf ρ (R i j)) (fun a b x y => blkOf ρ (K a b x y)) c := by
+  cases c with
+  | norm => show blkOf ρ (R 0 0) = 1; rw [show R 0 0 = 1 from h, blkOf_one]
+  | psd => exact hp h
+  | zero i j => show blkOf ρ (R i j) = 0; rw [show R i j = 0 from h, blkOf_zero]
+  | meas i j x y a b => show blkOf ρ (R i j) = blkOf ρ (K a b x y); rw [show R i j = K a b x y from h]
+  | margA i j x a =>
+    show blkOf ρ (R i j) = sumN bo (fun b => blkOf ρ (K a b x 0))
+    rw [show R i j = sumN bo (fun b => K a b x 0) from h, blkOf_sumN]
+  | margB i j y b =>
+    show blkOf ρ (R i j) = sumN ao (fun a => blkOf ρ (K a b 0 y))
+    rw [show R i j = sumN ao (fun a => K a b 0 y) from h, blkOf_sumN]
+  | same i j i' j' => show blkOf ρ (R i j) = blkOf ρ (R i' j'); rw [show R i j = R i' j' from h]
+  | kNonneg x y a b => exact blkOf_nonneg hρ (show (0 : ℚ) ≤ K a b x y from h)
+  | kNorm x y =>
+    show sumN ao (fun a => sumN bo (fun b => blkOf ρ (K a b x y))) = 1
+    have h' : sumN ao (fun a => sumN bo (fun b => K a b x y)) = 1 := h
+    rw [← blkOf_one ρ, ← h', blkOf_sumN]
+    congr 1; funext a; rw [blkOf_sumN]
+  | nsBob y b x =>
+    show sumN ao (fun a => blkOf ρ (K a b 0 y)) = sumN ao (fun a => blkOf ρ (K a b x y))
+    have h' : sumN ao (fun a => K a b 0 y) = sumN ao (fun a => K a b x y) := h
+    rw [← blkOf_sumN, ← blkOf_sumN, h']
+  | nsAlice x a y =>
+    show sumN bo (fun b => blkOf ρ (K a b x 0)) = sumN bo (fun b => blkOf ρ (K a b x y))
+    have h' : sumN bo (fun b => K a b x 0) = sumN bo (fun b => K a b x y) := h
+    rw [← blkOf_sumN, ← blkOf_sumN, h']
+
+/-- the moment matrix `ρ ⊗ z zᵀ` of an unentangled strategy in the layout of `npa_constraints(…, referee_dim = d)`:
+    flat index `i + n·p` for referee index `p` and word number `i` (so that `r_var[i::n, j::n]` is block `(i, j)`) -/
+noncomputable def extR (n : Nat) (z : Nat → ℚ) (ρ : Matrix (Fin d) (Fin d) ℂ) : Matrix (Fin (d * n)) (Fin (d * n)) ℂ :=
+  (ρ ⊗ₖ (Matrix.of fun i j : Fin n => (((z i * z j : ℚ)) : ℂ))).submatrix finProdFinEquiv.symm finProdFinEquiv.symm
+
+theorem extR_psd (n : Nat) (z : Nat → ℚ) {ρ : Matrix (Fin d) (Fin d) ℂ} (hρ : ρ.PosSemidef) : (extR n z ρ).PosSemidef :=
+  (hρ.kronecker (psdQ_of_rank_one n z)).submatrix _
+
+theorem extR_apply (n : Nat) (z : Nat → ℚ) (ρ : Matrix (Fin d) (Fin d) ℂ) (p q : Fin d) (i j : Fin n) :
+    extR n z ρ (finProdFinEquiv (p, i)) (finProdFinEquiv (q, j)) = (((z i * z j : ℚ)) : ℂ) * ρ p q := by
+  simp [extR, Matrix.kroneckerMap_apply, mul_comm]
+
+theorem sum4_comm {A B X Y M : Type*} [Fintype A] [Fintype B] [Fintype X] [Fintype Y] [AddCommMonoid M]
+    (F : A → B → X → Y → M) : ∑ a, ∑ b, ∑ x, ∑ y, F a b x y = ∑ x, ∑ y, ∑ a, ∑ b, F a b x y := by
+  calc ∑ a, ∑ b, ∑ x, ∑ y, F a b x y = ∑ a, ∑ x, ∑ b, ∑ y, F a b x y :=
+        Finset.sum_congr rfl fun a _ => Finset.sum_comm
+    _ = ∑ x, ∑ a, ∑ b, ∑ y, F a b x y := Finset.sum_comm
+    _ = ∑ x, ∑ a, ∑ y, ∑ b, F a b x y :=
+        Finset.sum_congr rfl fun x _ => Finset.sum_congr rfl fun a _ => Finset.sum_comm
+    _ = ∑ x, ∑ y, ∑ a, ∑ b, F a b x y := Finset.sum_congr rfl fun x _ => Finset.sum_comm
+
+theorem wordAt_genWords_zero (base : Nat) (conf : List (Nat × Nat)) (ao ai bo bi : Nat) :
+    wordAt (genWords base conf ao ai bo bi) 0 = [Sym.ident] ∧
+      0 < (genWords base conf ao ai bo bi).length := by
+  constructor
+  · simp [genWords, wordAt]
+  · simp [genWords]
+
+end ExtEmbed
 
 end Toq.ExtGames
